@@ -93,6 +93,40 @@ def check_suffix(c):
     return devs
 
 
+def battery(raw: bytes):
+    """A fixed battery of suffixes tried behind every generated unit (the drawn suffix of the clause above reaches each shape only now
+    and then): well-formed TLVs of every type that may follow in a PDU, LVs, every segment-request size (with and without two more
+    octets for a CRC), fills, and the unit itself."""
+    out = []
+    for w in (1, 2, 4, 8):
+        out.append((f"entity TLV width {w}", bytes([0x06, w]) + bytes(range(1, w + 1))))
+    out.append(("filestore response TLV", R.tlv_bytes({"t": "fsresp", "action": 0, "status": 0, "n1": "a", "n2": "", "msg": ""})))
+    out.append(("filestore request TLV", R.tlv_bytes({"t": "fsreq", "action": 2, "n1": "a", "n2": "b"})))
+    for t in (0x02, 0x04, 0x05):
+        out.append((f"TLV type {t}", R.tlv(t, b"\x13\x01")))
+    out.append(("empty LV", R.lv(b"")))
+    out.append(("LV", R.lv(b"abc")))
+    for n in (4, 8, 10, 16, 18, 32, 34):
+        out.append((f"{n} octets", bytes((i * 29 + n) & 0xFF for i in range(n))))
+    for fill, n in ((0x00, 1), (0x00, 2), (0x00, 8), (0xFF, 1), (0xFF, 8), (0x06, 2)):
+        out.append((f"fill {fill:02x} x {n}", bytes([fill]) * n))
+    out.append(("the unit again", raw))
+    return out
+
+
+def check_battery(c):
+    devs, seen, n = [], set(), 0
+    raw = bytes.fromhex(c["raw"])
+    for shape, suffix in battery(raw):
+        r = check_suffix({**c, "suffix": suffix.hex(), "shape": shape})
+        n += 1
+        for d in r:
+            if d.sub not in seen:
+                seen.add(d.sub)
+                devs.append(d)
+    return devs, n
+
+
 def _diff(got, want):
     if isinstance(got, dict) and isinstance(want, dict):
         ks = [k for k in sorted(set(got) | set(want)) if got.get(k) != want.get(k)]
@@ -274,6 +308,14 @@ for _fam in FAMILIES:
         required=[e.name for e in units(_fam)] + ["suffix: same kind", "suffix: tlv", "suffix: segment-request sized"] + (["pdu with crc", "suffix multiple of 8"] if _fam == "cfdp_pdu" else []),
         rule="non-trivial = non-empty suffix; for PDUs additionally CRC on or a suffix whose size is a multiple of 8 (slips through length-modulo checks)",
         n={"quick": 60 * len(units(_fam)), "thorough": 800 * len(units(_fam))},
+    ))
+    CLAUSES.append(Clause(
+        id=f"C09.battery.{_fam}",
+        doc=f"{_fam}: every generated unit followed by each of a fixed battery of suffixes (entity / filestore / other TLVs, LVs, 4..34 octets, fills, the unit again): same oracle as the suffix clause",
+        strategy=(lambda _fam=_fam: st.sampled_from(units(_fam)).flatmap(lambda e: e.valid().map(lambda v: {"entry": e.name, "cfg": v["cfg"], "raw": v["raw"], "crc": v.get("crc", 0)}))),
+        check=check_battery, classify=lambda c: [c["entry"]] + (["pdu with crc"] if c.get("crc") else []), required=[e.name for e in units(_fam)], weight_by_evals=True,
+        rule="every (unit, suffix of the battery) pair is non-trivial",
+        n={"quick": 25 * len(units(_fam)), "thorough": 300 * len(units(_fam))},
     ))
     if walkers(_fam):
         CLAUSES.append(Clause(
